@@ -1076,13 +1076,14 @@ Qed.
 
 Lemma alterable_no_modify m n k : alterable m = true -> ~ In (ModifyColumn n k) m.
 Proof.
-  induction m as [|c m IH]; simpl; intros A H; [exact H|].
+  induction m as [|c m IH]; cbn [alterable In]; intros A H; [exact H|].
   destruct H as [H|H].
   - subst c. discriminate.
   - destruct c as [c0|x|x y|a b|i|i|a b|tg]; try discriminate; try (now apply IH).
-    destruct (rc_hasidx c0 || rc_hasfk c0); [discriminate|].
-    destruct (rc_dkind c0) as [|[]|]; try discriminate;
-      (destruct (rc_gen c0 && rc_stored c0); [discriminate|now apply IH]).
+    + destruct (rc_hasidx c0 || rc_hasfk c0); [discriminate|].
+      destruct (rc_dkind c0) as [|[]|]; try discriminate;
+        (destruct (rc_gen c0 && rc_stored c0); [discriminate|now apply IH]).
+    + destruct (has_prefix sqlite_autoindex i); [discriminate|now apply IH].
 Qed.
 
 Lemma alterable_no_wrap m c : alterable m = true -> ifnull_wrapped m c = false.
